@@ -6,7 +6,9 @@
 (* File = sequence 1..FileLen (distinct values, so delivered data can be compared by position).        *)
 (* One action per loop iteration; the OS answer is a nondeterministic choice inside the action.        *)
 EXTENDS Naturals, Sequences, TLC, Json
-CONSTANTS BUFSZ, FileLen, Requests, MaxEintr, Dev, Emit
+CONSTANTS BUFSZ, FileLen, Requests, MaxEintr, Dev, Emit,
+          ProbeFirst      \* > 0: before the requests the consumer looks at the stream once with get_buffered_data(ProbeFirst) and consumes nothing
+                          \* (lib/tar/src/iterator.c tar_iterator_create: format / compressor detection from the first 512 bytes)
 VARIABLES pos,            \* file position of the descriptor
           buf, boff, eof, \* buffer contents (Len(buf) = buffer_used), buffer_offset, eof flag
           pc, want, got,  \* consumer: "idle" | "loop" | "refill" | "copy"; current request, bytes so far
@@ -14,18 +16,24 @@ VARIABLES pos,            \* file position of the descriptor
           delivered,      \* everything handed to the consumer so far
           results,        \* per finished request: number of bytes returned
           eintr, script,  \* EINTR budget used; history of OS answers (for replay)
-          orig            \* the request sequence of this behaviour
-vars == <<pos, buf, boff, eof, pc, want, got, reqs, delivered, results, eintr, script, orig>>
+          orig,           \* the request sequence of this behaviour
+          mode, peeked    \* "probe" until the single look is done, then "read"; number of bytes the look could see (999 = not yet)
+vars == <<pos, buf, boff, eof, pc, want, got, reqs, delivered, results, eintr, script, orig, mode, peeked>>
 File == [i \in 1..FileLen |-> i]
 Avail == Len(buf) - boff
 Min(a, b) == IF a < b THEN a ELSE b
 
 Init == /\ pos = 0 /\ buf = <<>> /\ boff = 0 /\ eof = FALSE /\ pc = "idle" /\ want = 0 /\ got = 0
         /\ reqs \in Requests /\ orig = reqs /\ delivered = <<>> /\ results = <<>> /\ eintr = 0 /\ script = <<>>
+        /\ mode = (IF ProbeFirst > 0 THEN "probe" ELSE "read") /\ peeked = 999
 
-Start == /\ pc = "idle" /\ reqs # <<>>
+StartProbe == /\ pc = "idle" /\ mode = "probe" /\ peeked = 999
+              /\ want' = ProbeFirst /\ got' = 0 /\ pc' = "loop"
+              /\ UNCHANGED <<pos, buf, boff, eof, reqs, delivered, results, eintr, script, orig, mode, peeked>>
+
+Start == /\ pc = "idle" /\ reqs # <<>> /\ mode = "read"
          /\ want' = Head(reqs) /\ got' = 0 /\ reqs' = Tail(reqs) /\ pc' = "loop"
-         /\ UNCHANGED <<pos, buf, boff, eof, delivered, results, eintr, script, orig>>
+         /\ UNCHANGED <<pos, buf, boff, eof, delivered, results, eintr, script, orig, mode, peeked>>
 
 (* sqfs_istream_read loop head + file_get_buffered_data: decide whether precache is needed *)
 LoopHead ==
@@ -37,7 +45,7 @@ LoopHead ==
           THEN /\ buf' = (IF Dev = "RefillDropsTail" THEN <<>> ELSE SubSeq(buf, boff + 1, Len(buf)))   \* compact
                /\ boff' = 0 /\ pc' = "refill" /\ UNCHANGED results
           ELSE /\ pc' = "copy" /\ UNCHANGED <<buf, boff, results>>
-  /\ UNCHANGED <<pos, eof, want, got, reqs, delivered, eintr, script, orig>>
+  /\ UNCHANGED <<pos, eof, want, got, reqs, delivered, eintr, script, orig, mode, peeked>>
 
 (* one iteration of the read() loop in precache *)
 Refill ==
@@ -55,25 +63,31 @@ Refill ==
                   /\ buf' = buf \o SubSeq(File, pos + 1, pos + k) /\ pos' = pos + k
                   /\ script' = Append(script, k)
                   /\ IF Dev = "ShortReadIsEOF" /\ k < BUFSZ - Len(buf)
-                     THEN eof' = TRUE /\ pc' = "copy" ELSE UNCHANGED <<eof, pc>>
+                     THEN eof' = TRUE /\ pc' = "copy"
+                     ELSE IF Dev = "PrecacheSingleRead" THEN pc' = "copy" /\ UNCHANGED eof        \* "readers loop anyway"
+                     ELSE UNCHANGED <<eof, pc>>
              /\ UNCHANGED eintr
-  /\ UNCHANGED <<boff, want, got, reqs, delivered, results, orig>>
+  /\ UNCHANGED <<boff, want, got, reqs, delivered, results, orig, mode, peeked>>
 
 (* get_buffered_data returns; memcpy + advance_buffer *)
+CopyRead ==
+  IF eof /\ Avail = 0
+  THEN /\ pc' = "idle" /\ results' = Append(results, got) /\ UNCHANGED <<buf, boff, got, delivered>>
+  ELSE LET d == Min(Avail, want - got) IN
+       /\ delivered' = delivered \o SubSeq(buf, boff + 1, boff + d) /\ got' = got + d
+       /\ (IF d < Avail THEN boff' = boff + d /\ UNCHANGED buf ELSE boff' = 0 /\ buf' = <<>>)
+       /\ pc' = "loop" /\ UNCHANGED results
 Copy ==
   /\ pc = "copy"
-  /\ IF eof /\ Avail = 0
-     THEN /\ pc' = "idle" /\ results' = Append(results, got) /\ UNCHANGED <<buf, boff, got, delivered>>
-     ELSE LET d == Min(Avail, want - got) IN
-          /\ delivered' = delivered \o SubSeq(buf, boff + 1, boff + d) /\ got' = got + d
-          /\ (IF d < Avail THEN boff' = boff + d /\ UNCHANGED buf ELSE boff' = 0 /\ buf' = <<>>)
-          /\ pc' = "loop" /\ UNCHANGED results
+  /\ IF mode = "probe"
+     THEN /\ peeked' = Avail /\ mode' = "read" /\ pc' = "idle" /\ UNCHANGED <<buf, boff, got, delivered, results>>        \* look, consume nothing
+     ELSE /\ UNCHANGED <<mode, peeked>> /\ CopyRead
   /\ UNCHANGED <<pos, eof, want, reqs, eintr, script, orig>>
 
 Done == pc = "idle" /\ reqs = <<>>
-Next == Start \/ LoopHead \/ Refill \/ Copy \/ (Done /\ UNCHANGED vars)
+Next == StartProbe \/ Start \/ LoopHead \/ Refill \/ Copy \/ (Done /\ UNCHANGED vars)
 Spec == Init /\ [][Next]_vars
-FairSpec == Spec /\ WF_vars(Start) /\ WF_vars(LoopHead) /\ WF_vars(Refill) /\ WF_vars(Copy)
+FairSpec == Spec /\ WF_vars(StartProbe) /\ WF_vars(Start) /\ WF_vars(LoopHead) /\ WF_vars(Refill) /\ WF_vars(Copy)
 
 (* what an OS that always completes requests would have delivered: the property *)
 PrefixOK == delivered = SubSeq(File, 1, Len(delivered))
@@ -81,6 +95,8 @@ NoError  == pc # "error"
 RECURSIVE Ideal(_, _)
 Ideal(rs, p) == IF rs = <<>> THEN <<>> ELSE LET n == Min(Head(rs), FileLen - p) IN <<n>> \o Ideal(Tail(rs), p + n)
 SplitIndependent == Done => results = Ideal(orig, 0)
+(* a single look at the stream shows what a complete read would: callers that sniff a magic number do not loop *)
+ProbeComplete == peeked # 999 => peeked >= Min(Min(ProbeFirst, BUFSZ), FileLen)
 Terminates == <>Done
-EmitOK == (Emit /\ Done) => PrintT(<<"RESULT", ToJson([script |-> script, reqs |-> orig, results |-> results, ndelivered |-> Len(delivered)])>>)
+EmitOK == (Emit /\ Done) => PrintT(<<"RESULT", ToJson([script |-> script, reqs |-> orig, results |-> results, ndelivered |-> Len(delivered), probe |-> ProbeFirst, peeked |-> peeked])>>)
 =============================================================================
